@@ -143,6 +143,14 @@ def near_multiple(x, s, ulps=8):
     return None
 
 
+def almost_multiple(x, s):
+    """x (decimal rendering) is an exact multiple of s, or so close to one (2**-44 relative on the
+    quotient) that a quotient computed in doubles cannot tell: the inputs on which binary floating
+    point and decimal arithmetic can disagree about floor(x/s)"""
+    q = (x if isinstance(x, Fraction) else frac(x)) / (s if isinstance(s, Fraction) else frac(s))
+    return abs(q - round(q)) <= Fraction(1, 2 ** 44) * max(1, abs(q))
+
+
 def family_accept(func, x, s, mode=0):
     """acceptable outcomes of CEILING / FLOOR / .MATH / .PRECISE as a list of exact rationals and
     error codes.  Conventions (Excel documentation), permissive where Excel versions differ or the
